@@ -61,6 +61,8 @@ def main():
     need(inline.inline_temps(fn, {'end'}) == ['end'] and 'total = (a + s.size) * 2' in ast.unparse(fn), 'new local replaced by its definition')
     fn = ast.parse("def f(a, s):\n    end = a + s.size\n    a = 0\n    return end + a\n").body[0]
     need(inline.inline_temps(fn, {'end'}) == [], 'not when an operand is rebound in between')
+    fn = ast.parse("def f(s):\n    acc = []\n    for x in s:\n        acc.append(x)\n    return acc\n").body[0]
+    need(inline.inline_temps(fn, {'acc'}) == [], 'a mutable display read more than once keeps its name (identity)')
     pv = ast.parse("def g(c, n):\n    size = n\n    if c:\n        size //= 2\n    return size\n").body[0]
     vals = sorted(expr.path_value(p, p.end[1]) for p in paths.func_paths(pv))
     need(vals == ['floordiv(n,2)', 'n'], 'path-sensitive values: %s' % vals)
